@@ -53,7 +53,7 @@ SPEC = streamcheck.StreamSpec(
                         p_flatten=0.10, p_copy=0.0),
     n_quick=1200, n_thorough=40000,
     nontrivial=nontrivial,
-    pysem=dict(groups=[], effects=True),
+    pysem=dict(groups=['facade'], effects=True),
     extra_check=libclause.c11_library,
     extra_programs=deep_programs,
     rule='random IMPLICITLY sequenced build programs (no explicit relations) with nesting and counts; at every flatten: '
